@@ -456,12 +456,18 @@ def run_machine(ctx, machine_cls, max_examples, steps, shrink=True, max_rounds=3
 
 
 def load_known(prop):
-    path = os.path.join(VERIF_DIR, "known_findings.json")
-    if not os.path.exists(path):
-        return []
-    with open(path) as f:
-        data = json.load(f)
-    return [e for e in data.get("findings", []) if e.get("property") == prop]
+    out = []
+    paths = [os.path.join(VERIF_DIR, "known_findings.json")]
+    d = os.path.join(VERIF_DIR, "known_findings.d")
+    if os.path.isdir(d):
+        paths += [os.path.join(d, n) for n in sorted(os.listdir(d)) if n.endswith(".json")]
+    for path in paths:
+        if not os.path.exists(path):
+            continue
+        with open(path) as f:
+            data = json.load(f)
+        out += [e for e in data.get("findings", []) if e.get("property") == prop]
+    return out
 
 
 def load_replays(prop):
